@@ -22,15 +22,29 @@ _l = z3.Const("l!s", LN.sort())
 AX_LSET = [z3.ForAll([_l], z3.Implies(LN.len(_l) == 0, LSet(_l) == NoSrc), patterns=[LSet(_l)])]
 
 
+# ---- bridge between the opaque Petri-net objects of the diagram layer (sort PetriNet, spec functions Encodes / RestrictPN /
+# TrapSol / SrcOf) and the graph values of the translation layer (datatype PNGraph): every opaque net HAS a graph; SrcOf is by
+# DEFINITION the source set computed on that graph by the (verified) extract_source_variables; the graphs are well-named
+# (what network_to_petrinet / restrict_petrinet_to_subspace produce - assumed with those functions)
+from pyvc import pnmodel as _P
+from pyvc import aspmodel as _A
+pn_graph = z3.Function("pn_graph", T.PNS, _P.PNGraph)
+_pq, _nq = z3.Const("p!br", T.PNS), z3.Const("n!br", _P.PNode)
+AX_BRIDGE = [
+    z3.ForAll([_pq], SrcOf(_pq) == _A.SrcSetG(pn_graph(_pq)), patterns=[SrcOf(_pq)]),
+    z3.ForAll([_pq, _nq], z3.Implies(z3.And(_P.PNGraph.nodes(pn_graph(_pq))[_nq], _P.is_place(_nq)), _nq == _P.place(_P.pvar(_nq), _P.ppos(_nq))),
+              patterns=[_P.PNGraph.nodes(pn_graph(_pq))[_nq]]),
+]
+
+
 def elems_wf(lst):
     return z3.ForAll([a], z3.Implies(z3.And(0 <= a, a < LS.len(lst)), T.wf_space(LS.at(lst)[a])))
 
 
 def install(reg):
-    reg.add(Contract(
-        "biobalm.petri_net_translation.extract_source_variables", trusted=True,
-        params=[("encoded_network", M.TPN)], result_type=LN,
-        properties=("C02", "C09"),
-        ensures=[("sources", lambda c: LSet(c.result) == SrcOf(c.encoded_network))],
-        note="variables that no transition changes, sorted",
-    ))
+    def coerce(eng, st, v, ty):
+        # an opaque Petri net passed to a function of the translation layer: its graph
+        if v.ty == M.TPN and ty == _P.TPNG:
+            return Val(_P.TPNG, pn_graph(v.t))
+        return None
+    reg.add_hook("coerce", coerce)
